@@ -221,6 +221,29 @@ func runProperty(pc *PropConfig, tier string, timeout int, outDir string, overla
 	for _, miss := range vc.missingFuncs {
 		vc.addObligation(&Obligation{Name: miss + "/engine:no-contract", Func: miss, Kind: "engine", Failed: "function listed for this property has no contract or no longer exists", Tags: []string{pc.ID}})
 	}
+	// an event whose assertions serve this property must have fired somewhere, otherwise the clause was never checked
+	for _, ev := range vc.events {
+		tagged := false
+		name := ""
+		for _, gs := range ev.Stmts {
+			if gs.Assert != nil {
+				for _, t := range gs.Assert.Tags {
+					if t == pc.ID {
+						tagged = true
+						name = gs.Assert.Name
+					}
+				}
+			}
+		}
+		if tagged && vc.eventFired[ev] == 0 {
+			scope := ev.Target
+			if ev.In != "" {
+				scope += " in " + ev.In
+			}
+			vc.addObligation(&Obligation{Name: "event/never-fired:on " + ev.Kind + " " + scope + "/" + name, Kind: "engine", Tags: []string{pc.ID},
+				Failed: "the event never matched any instruction in the functions verified for this property: its assertion was not checked"})
+		}
+	}
 	res.genSecs = time.Since(t1).Seconds()
 	vc.solveAll(outDir, timeout, runtime.NumCPU(), tier == "thorough")
 	for _, o := range vc.obls {
